@@ -84,6 +84,10 @@ def base_pool():
             out.append({'a': x, 'b': y})
             out.append({'b': y, 'a': x})
     out += [{'a': [1, (2, {'b': (3,)})]}, [[[[[[1]]]]]], {'x': {'y': {'z': [1, {'w': None}]}}}]
+    # values that mention one and the same container more than once
+    sh_l, sh_d, sh_e = [1], {'k': 1}, []
+    out += [[sh_l, sh_l], {'a': sh_l, 'b': sh_l}, [sh_d, sh_d], (sh_l, [sh_l]), [[sh_e] * 3], {'a': sh_d, 'b': [sh_d]},
+            [sh_e, sh_e], dict.fromkeys(['x', 'y'], sh_e)]
     # instances of subclasses
     out += [Color.RED, S('a'), S('1'), L([1, (2,)]), F(1.0), P2(1, [2]), collections.OrderedDict([('b', 1), ('a', 2)]),
             {S('k'): 1}, {Color.RED: 'enum key'}, collections.defaultdict(list, {'a': [1]})]
@@ -125,6 +129,19 @@ def random_values(seed, n):
     return [gen(rnd.randrange(1, 5)) for _ in range(n)]
 
 
+def is_tree(v, seen=None):
+    seen = set() if seen is None else seen
+    if isinstance(v, (list, dict)):
+        if id(v) in seen:
+            return False
+        seen.add(id(v))
+    if isinstance(v, (list, tuple)):
+        return all(is_tree(x, seen) for x in v)
+    if isinstance(v, dict):
+        return all(is_tree(x, seen) for x in v.values())
+    return True
+
+
 def mutable_ids(v, acc=None):
     acc = set() if acc is None else acc
     if isinstance(v, (list, dict)):
@@ -156,7 +173,9 @@ def evaluate(values, JsonUtil):
                 r['san2'] = terms.to_term(JsonUtil.sanitize(s))
             except Exception as x:
                 r['san2'] = {'k': 'other', 'r': x.__class__.__name__}
-            r['disjoint'] = not (mutable_ids(s) & mutable_ids(v))
+            # no structure shared with the input - and none shared *within* the result: like the value a JSON
+            # round trip produces, it is a tree (an input that mentions one list twice yields two lists)
+            r['disjoint'] = not (mutable_ids(s) & mutable_ids(v)) and is_tree(s)
             try:
                 r['selfeq'] = bool(JsonUtil.is_equal(s, s))
             except Exception:
